@@ -14,6 +14,7 @@ import (
 	"verif/harness/clsim"
 	"verif/harness/e2e"
 	"verif/harness/gwsim"
+	"verif/harness/mqttref"
 	"verif/harness/vf"
 )
 
@@ -50,9 +51,22 @@ func genShort(t *rapid.T) string {
 }
 
 func genC32(t *rapid.T) c32Case {
-	c := c32Case{ClientID: rapid.SampledFrom([]string{"client1", "client1", "other"}).Draw(t, "cid"), Predef: map[string]map[uint16]string{}}
-	for _, cl := range []string{"*", "client1", "client2"} {
+	// the client with entries of its own: short, 23 octets (the longest ID of the MQTT-SN text), longer
+	// ones (bisquitt does not limit the length), non-ASCII
+	own := rapid.SampledFrom([]string{"client1", "client1", "client1", "c2345678901234567890123", "c23456789012345678901234", "sensor-node-building-7-floor-3", "čidlo-1"}).Draw(t, "own")
+	c := c32Case{ClientID: own, Predef: map[string]map[uint16]string{}}
+	if rapid.IntRange(0, 2).Draw(t, "cid") == 0 {
+		c.ClientID = "other"
+	}
+	second := "client2"
+	if len(own) > 23 && rapid.Bool().Draw(t, "prefix_key") {
+		second = own[:23] // another client whose ID is a prefix of this one
+	}
+	for _, cl := range []string{"*", own, second} {
 		n := rapid.IntRange(0, 4).Draw(t, "n")
+		if cl != second && n == 0 && rapid.Bool().Draw(t, "nonempty") {
+			n = 2
+		}
 		for i := 0; i < n; i++ {
 			if c.Predef[cl] == nil {
 				c.Predef[cl] = map[uint16]string{}
@@ -61,11 +75,13 @@ func genC32(t *rapid.T) c32Case {
 		}
 	}
 	if rapid.IntRange(0, 5).Draw(t, "repo_example") == 0 {
-		c.Predef = map[string]map[uint16]string{"client1": {1: "dev/000001/data", 2: "p/two"}, "*": {1: "dev/any/data", 2: "p/one", 3: "p/three"}}
+		c.Predef = map[string]map[uint16]string{own: {1: "dev/000001/data", 2: "p/two"}, "*": {1: "dev/any/data", 2: "p/one", 3: "p/three"}}
 	}
 	n := rapid.IntRange(2, 10).Draw(t, "nops")
+	var subNames []string // names the client will hold a subscription for (exact ones)
+	wild := false
 	for i := 0; i < n; i++ {
-		op := c32Op{Kind: rapid.SampledFrom([]string{"pubpre", "pubshort", "subpre", "subshort", "pubtool", "subtool", "inject", "inject"}).Draw(t, "kind"), QoS: uint8(rapid.IntRange(0, 2).Draw(t, "qos"))}
+		op := c32Op{Kind: rapid.SampledFrom([]string{"pubpre", "pubshort", "subpre", "subshort", "pubtool", "subtool", "subwild", "inject", "inject", "inject"}).Draw(t, "kind"), QoS: uint8(rapid.IntRange(0, 2).Draw(t, "qos"))}
 		switch op.Kind {
 		case "pubpre", "subpre":
 			op.ID = uint16(rapid.IntRange(1, 4).Draw(t, "opid"))
@@ -73,11 +89,27 @@ func genC32(t *rapid.T) c32Case {
 			op.Name = genShort(t)
 		case "pubtool", "subtool":
 			op.Name = rapid.SampledFrom(append(c32Names, "plain/name")).Draw(t, "toolname")
+		case "subwild":
+			op.Name = rapid.SampledFrom([]string{"#", "p/#", "dev/+/data", "+"}).Draw(t, "filter")
+			wild = true
 		case "inject":
-			if rapid.Bool().Draw(t, "injshort") {
+			switch {
+			case len(subNames) > 0 && rapid.IntRange(0, 3).Draw(t, "injsub") > 0:
+				op.Name = rapid.SampledFrom(subNames).Draw(t, "injsubname")
+			case !wild && rapid.Bool().Draw(t, "injshort"):
 				op.Name = genShort(t)
-			} else {
+			default:
 				op.Name = rapid.SampledFrom(c32Names).Draw(t, "injname")
+			}
+		}
+		switch op.Kind {
+		case "subshort", "subtool":
+			subNames = append(subNames, op.Name)
+		case "subpre":
+			if nm, ok := c.Predef[c.ClientID][op.ID]; ok {
+				subNames = append(subNames, nm)
+			} else if nm, ok := c.Predef["*"][op.ID]; ok {
+				subNames = append(subNames, nm)
 			}
 		}
 		c.Ops = append(c.Ops, op)
@@ -131,7 +163,7 @@ func runC32(c c32Case) (r vf.Result) {
 			meant, defined = pt.GetTopicName(c.ClientID, op.ID)
 		case "pubshort", "subshort":
 			meant = op.Name
-		case "pubtool", "subtool":
+		case "pubtool", "subtool", "subwild":
 			meant = op.Name
 		}
 		switch op.Kind {
@@ -189,9 +221,11 @@ func runC32(c c32Case) (r vf.Result) {
 				r.Fail("publish-lost/"+op.Kind, "%v (topic %q) never reached the broker\n%s", cl, meant, s.Dump(30))
 				return
 			}
-		case "subpre", "subshort", "subtool":
+		case "subpre", "subshort", "subtool", "subwild":
 			var cl clsim.Call
 			switch op.Kind {
+			case "subwild":
+				cl = clsim.Call{API: "Subscribe", Topic: op.Name, QoS: op.QoS}
 			case "subpre":
 				cl = clsim.Call{API: "SubscribePredefined", TopicID: op.ID, QoS: op.QoS}
 			case "subshort":
@@ -224,8 +258,21 @@ func runC32(c c32Case) (r vf.Result) {
 			}
 			subscribed[meant] = true
 		case "inject":
-			if !subscribed[op.Name] {
+			want := 0 // one handler per filter held which matches
+			for f := range subscribed {
+				if mqttref.Match(f, op.Name) {
+					want++
+				}
+			}
+			if want == 0 {
 				continue
+			}
+			if id, ok := pt.GetTopicID(c.ClientID, op.Name); ok {
+				if _, o := c.Predef[c.ClientID][id]; o {
+					if _, st := c.Predef["*"][id]; st {
+						r.NonTrivial = true
+					}
+				}
 			}
 			if _, ok := s.Broker.Publish(op.Name, payload, op.QoS, false); !ok {
 				continue
@@ -241,8 +288,10 @@ func runC32(c c32Case) (r vf.Result) {
 					}
 				}
 			}
-			if n != 1 {
-				r.Fail(fmt.Sprintf("delivery-count=%d", min(n, 2)), "broker message on %q (subscribed) ran the handler %d times\n%s", op.Name, n, s.Dump(30))
+			// C27: the callback of a matching subscription runs; with several matching filters bisquitt's
+			// client runs one of them
+			if n < 1 || n > want {
+				r.Fail(fmt.Sprintf("delivery-count=%d", min(n, 2)), "broker message on %q ran %d handlers, the client holds %d matching subscriptions (%v)\n%s", op.Name, n, want, subscribed, s.Dump(30))
 				return
 			}
 			r.Label("delivered")
@@ -255,8 +304,8 @@ func runC32(c c32Case) (r vf.Result) {
 func TestC32(t *testing.T) {
 	vf.Check(t, vf.Prop[c32Case]{
 		ID: "C32", Name: "routing-consistent", Bubble: true,
-		Rule: "real client and real gateway sharing one predefined-topic configuration (entries for '*', client1, client2 over IDs 1-4 and 5 names, with overlaps and shadowing; sometimes the repository's topics.yaml shape), client ID inside or outside the configuration; 2-10 operations: PublishPredefined(id), Publish(2-octet name over all byte values that are valid MQTT), SubscribePredefined(id), Subscribe(2-octet name), the decision logic of bisquitt-pub / bisquitt-sub (GetTopicID(name), then the predefined call, else register/subscribe by name), and broker publishes on predefined and short names that are subscribed. Non-trivial = an operation that uses an ID defined for both the client and '*'; distinct by case.",
-		Assumptions: []string{"2-octet names containing '+', '#', NUL or invalid UTF-8 are not generated (C24 requires the gateway to refuse them)", "oracle: the broker-side topic equals the name the client meant (its own GetTopicName / the short name / the name given to the tool logic); the handler's topic equals the broker's"},
+		Rule: "real client and real gateway sharing one predefined-topic configuration (entries for '*', the client's own ID (7, 23, 24 or 30 octets long, or non-ASCII), and a second client - sometimes one whose ID is the first 23 octets of the first - over IDs 1-4 and 5 names, with overlaps and shadowing; sometimes the repository's topics.yaml shape), client ID inside or outside the configuration; 2-10 operations: PublishPredefined(id), Publish(2-octet name over all byte values that are valid MQTT), SubscribePredefined(id), Subscribe(2-octet name), Subscribe(wildcard filter: #, p/#, dev/+/data, +), the decision logic of bisquitt-pub / bisquitt-sub (GetTopicID(name), then the predefined call, else register/subscribe by name), and broker publishes on predefined and short names that are subscribed (exactly or by a wildcard; three in four on a name subscribed earlier). Non-trivial = an operation, or a broker publish the gateway forwards, that uses an ID defined for both the client and '*'; distinct by case.",
+		Assumptions: []string{"2-octet names containing '+', '#', NUL or invalid UTF-8 are not generated (C24 requires the gateway to refuse them)", "oracle: the broker-side topic equals the name the client meant (its own GetTopicName / the short name / the name given to the tool logic); the handler's topic equals the broker's, and at least one handler runs, at most one per matching filter the client holds"},
 		Gen:         genC32,
 		Run:         runC32,
 	})
